@@ -18,7 +18,7 @@ Definition no_sched : sched3 := {| starts := []; stops := []; restarts := [] |}.
 Fixpoint parse_all (l : list string) : pres (list spec) :=
   match l with
   | [] => POk []
-  | s :: r => match parse s with
+  | s :: r => match parse_cron s with
               | PPanic => PPanic
               | PErr => PErr
               | POk sp => match parse_all r with POk sps => POk (sp :: sps) | PPanic => PPanic | PErr => PErr end
@@ -37,18 +37,15 @@ Definition kind_of_key (k : string) : option skind :=
   if String.eqb k "start" then Some KStart else if String.eqb k "stop" then Some KStop
   else if String.eqb k "restart" then Some KRestart else None.
 
-(* one key of the map form: parser.go:57-103.  The values are parsed one by one; a value that parses under an
-   unknown key is appended through a nil slice pointer (panic). *)
-Fixpoint key_values (target : option skind) (vs : list string) : pres (list spec) :=
+(* one key of the map form: parser.go:68-118.  A key other than start / stop / restart is an error (since c2912bd;
+   before, a value under such a key was appended through a nil slice pointer). *)
+Fixpoint key_values (vs : list string) : pres (list spec) :=
   match vs with
   | [] => POk []
-  | v :: r => match parse v with
+  | v :: r => match parse_cron v with
               | PPanic => PPanic
               | PErr => PErr
-              | POk sp => match target with
-                          | None => PPanic
-                          | Some _ => match key_values target r with POk sps => POk (sp :: sps) | PPanic => PPanic | PErr => PErr end
-                          end
+              | POk sp => match key_values r with POk sps => POk (sp :: sps) | PPanic => PPanic | PErr => PErr end
               end
   end.
 
@@ -63,10 +60,13 @@ Definition key_outcome (kv : mkey * mval) : pres (option skind * list spec) :=
                   end in
       match vals with
       | None => PErr
-      | Some vs => match key_values (kind_of_key k) vs with
-                   | POk sps => POk (kind_of_key k, sps)
-                   | PPanic => PPanic
-                   | PErr => PErr
+      | Some vs => match kind_of_key k with
+                   | None => PErr
+                   | Some kd => match key_values vs with
+                                | POk sps => POk (Some kd, sps)
+                                | PPanic => PPanic
+                                | PErr => PErr
+                                end
                    end
       end
   end.
